@@ -61,6 +61,12 @@ def configs(tier, seed):
                 for voc in vocs:
                     out.append({"name": f"n{n}-dag{di}-order{oi}-voc{voc}", "n": n, "deps": deps, "order": list(order),
                                 "voc": voc, "nested": (di + oi + voc) % 2 == 1, "updates": 2 if tier == "quick" else 3})
+    # restoring a recorded parameter set (as create_result does after a failed run): expression parameters flagged non-negative
+    # travel through the optimiser's logarithmic space in the history - after the restore they must again equal their expression
+    for oi, order in enumerate(([0, 1, 2], [2, 1, 0])):
+        for voc in (0, 1):
+            out.append({"name": f"history-n3-order{oi}-voc{voc}", "n": 3, "deps": [[], [0], [0, 1]], "order": order, "voc": voc, "nested": bool(oi),
+                        "updates": 2, "history": True, "nn_expr": True})
     if tier == "quick":
         # four parameters: the chain and the diamond in dependants-first, dependencies-first and two mixed declaration orders
         for di, deps in enumerate(([[], [0], [1], [2]], [[], [0], [0], [1, 2]], [[], [0], [0, 1], [1, 2]])):
@@ -105,7 +111,7 @@ def build(cfg, value_of):
     for i in cfg["order"]:
         lab = _label(cfg, i)
         if cfg["deps"][i]:
-            params[lab] = Parameter(label=lab, expression=expression(cfg, i)[0])
+            params[lab] = Parameter(label=lab, expression=expression(cfg, i)[0], non_negative=bool(cfg.get("nn_expr")))
         else:
             p = Parameter(label=lab, value=1.0)
             p.value = value_of(i)
@@ -157,6 +163,13 @@ def _run_one(cfg, rec):
             params = build(cfg, lambda i: cur[i])
             record("construction", params, cur)
             free_labels = [_label(cfg, i) for i in cfg["order"] if i in plain_idx]
+            hist, snaps = None, []
+            if cfg.get("history"):
+                from glotaran.parameter.parameter_history import ParameterHistory
+
+                hist = ParameterHistory()
+                hist.append(params)
+                snaps.append(dict(cur))
             for u in range(cfg["updates"]):
                 x = SymArray((len(free_labels),))
                 for k, lab in enumerate(free_labels):
@@ -165,6 +178,9 @@ def _run_one(cfg, rec):
                     x[k] = cur[i]
                 params.set_from_label_and_value_arrays(free_labels, x)
                 record(f"update {u + 1}", params, cur)
+                if hist is not None:
+                    hist.append(params)
+                    snaps.append(dict(cur))
                 if u == 0:
                     record("copy", params.copy(), cur)
                     # the optimiser works on a copy: updating the copy follows the copy's values and leaves the original alone
@@ -178,8 +194,13 @@ def _run_one(cfg, rec):
                     cp.set_from_label_and_value_arrays(free_labels, z)
                     record("copy updated", cp, curz)
                     record("original after the copy was updated", params, cur)
+            if hist is not None:
+                for r_ in (1, 0):
+                    params.set_from_history(hist, r_)
+                    record(f"update restored from history record {r_}", params, snaps[r_])
+                    cur = dict(snaps[r_])
             # partial updates as in finite-difference steps: one entry changes, the others keep their value
-            for k0 in range(len(free_labels)):
+            for k0 in range(len(free_labels) if hist is None else 0):
                 x = SymArray((len(free_labels),))
                 for k, lab in enumerate(free_labels):
                     i = [j for j in plain_idx if _label(cfg, j) == lab][0]
@@ -207,6 +228,12 @@ def _run_one(cfg, rec):
                     if isinstance(g, float) and not cfg["deps"][i]:
                         ok = True
                     goal = z3.BoolVal(ok)
+                elif "restored" in name and cfg["deps"][i]:
+                    # through the optimiser's log space: equal up to the documented 1e-10 guard of the logarithm at value 1
+                    w_ = want[i] if isinstance(want[i], z3.ExprRef) else zreal(want[i])
+                    d_ = g.e - w_
+                    aw_ = z3.If(w_ >= 0, w_, -w_)
+                    goal = z3.And(d_ <= z3.Q(1, 10**9) * aw_, -d_ <= z3.Q(1, 10**9) * aw_)
                 else:
                     goal = core.cross_eq(g.e, want[i] if isinstance(want[i], z3.ExprRef) else zreal(want[i]))
                 stage_kind = "construction" if name == "construction" else "copy" if "copy" in name else "update"
@@ -240,6 +267,13 @@ def _float_stages(cfg, env):
         params = build(cfg, lambda i: cur[i])
         out["construction"] = ([params.get(_label(cfg, i)).value for i in range(n)], dict(cur))
         free_labels = [_label(cfg, i) for i in cfg["order"] if i in plain_idx]
+        hist, snaps = None, []
+        if cfg.get("history"):
+            from glotaran.parameter.parameter_history import ParameterHistory
+
+            hist = ParameterHistory()
+            hist.append(params)
+            snaps.append(dict(cur))
         for u in range(cfg["updates"]):
             x = []
             for lab in free_labels:
@@ -248,6 +282,9 @@ def _float_stages(cfg, env):
                 x.append(cur[i])
             params.set_from_label_and_value_arrays(free_labels, np.array(x))
             out[f"update {u + 1}"] = ([params.get(_label(cfg, i)).value for i in range(n)], dict(cur))
+            if hist is not None:
+                hist.append(params)
+                snaps.append(dict(cur))
             if u == 0:
                 cp = params.copy()
                 out["copy"] = ([cp.get(_label(cfg, i)).value for i in range(n)], dict(cur))
@@ -261,7 +298,12 @@ def _float_stages(cfg, env):
                 cp.set_from_label_and_value_arrays(free_labels, np.array(z))
                 out["copy updated"] = ([cp.get(_label(cfg, i)).value for i in range(n)], dict(curz))
                 out["original after the copy was updated"] = ([params.get(_label(cfg, i)).value for i in range(n)], dict(cur))
-        for k0 in range(len(free_labels)):
+        if hist is not None:
+            for r_ in (1, 0):
+                params.set_from_history(hist, r_)
+                out[f"update restored from history record {r_}"] = ([params.get(_label(cfg, i)).value for i in range(n)], dict(snaps[r_]))
+                cur = dict(snaps[r_])
+        for k0 in range(len(free_labels) if hist is None else 0):
             x = []
             for k, lab in enumerate(free_labels):
                 i = [j for j in plain_idx if _label(cfg, j) == lab][0]
